@@ -97,6 +97,19 @@ check("C25", "crashsim", "fault_enumeration",
       "deterministic simulation: journalled in-memory FS, exhaustive kill-point enumeration + torn writes (+ kill chains, simulated ranks), real resume run vs uninterrupted reference",
       "DESIGN.md 3.4")
 
+check("C26", "mpisim+hypothesis", "exploration",
+      "Hypothesis generates and shrinks histories of phases; a phase is 1-3 collective sample-list operations (save with "
+      "any ordered partition incl. empty ranks and overwrite on/off, load, average/sample_stat, HDF5 export with all flag "
+      "combinations) run back-to-back by N in 1..4 simulated ranks under a seeded schedule and send semantics on a "
+      "simulated disk that persists across phases (N changes between phases), plus StatCalculator sequences. Oracle: "
+      "reference model base -> samples last saved (every sample has a unique content id); loads must return exactly the "
+      "shareRange slice bit for bit on every rank, statistics must equal numpy mean / ddof=1 variance (rtol 1e-11), HDF5 "
+      "contents are read back by the master task; no deadlock, all ranks agree on success/failure.",
+      "Trusted: SimComm/SimFS models; h5py writes to a real tmpfs directory outside the seam (only NIFTy's own path checks "
+      "are yield points); real-valued samples only; contents after a refused save are treated as unspecified.",
+      "deterministic simulation: Hypothesis-generated operation histories over simulated MPI ranks + simulated disk, reference-model oracle, seeded schedules",
+      "DESIGN.md 3.5")
+
 ENGINES = [
     {"name": "mpisim", "path": "verifsim/sched.py", "serves_properties": ["C22", "C23", "C26"],
      "kind_free_text": "baton-passing thread-ranks running real NIFTy code behind SimComm (fake mpi4py communicator); seeded policies, eager/rendezvous per message, deadlock detection, explicit replay"},
